@@ -601,7 +601,20 @@ func helperSignature(p *Program, fd *ast.FuncDecl) helperSig {
 	}
 	nres := fd.Type.Results.NumFields() - 1
 	if vararg {
-		sig.min, sig.max = 1, -1
+		sig.min, sig.max = 0, -1
+		// at least one argument: the helper starts by rejecting an immediate `)` with an arity error
+		if len(fd.Body.List) > 0 {
+			if ifs, ok := fd.Body.List[0].(*ast.IfStmt); ok && terminates(ifs.Body.List) {
+				if be, ok := ast.Unparen(ifs.Cond).(*ast.BinaryExpr); ok && be.Op == token.EQL && tokenConstName(pk, be.Y) == "CloseParenToken" {
+					ast.Inspect(ifs.Body, func(m ast.Node) bool {
+						if ret, ok := m.(*ast.ReturnStmt); ok && len(ret.Results) > 0 && strings.Contains(exprStr(ret.Results[len(ret.Results)-1]), "InvalidFunctionCallError") {
+							sig.min = 1
+						}
+						return true
+					})
+				}
+			}
+		}
 		// the success return must be preceded by an append in the loop (at least one argument)
 		hasAppend := false
 		ast.Inspect(fd.Body, func(m ast.Node) bool {
